@@ -17,3 +17,6 @@ pub mod python_wrapper;
 pub use model::Statement;
 pub use execution::execution_engine::ExecutionEngine;
 pub use data_model::Tables;
+#[cfg(kani)]
+#[path = "/verif/kani/root.rs"]
+mod verif_kani;
